@@ -195,7 +195,18 @@ func readGroupFiles(path string, maxIndex int) (sizes []int, all []byte) {
 // first byte it yields whole written records until end-of-log (the newest-first search and
 // repairWalFile read single files that way).
 func checkFileFrames(lc *logCase, path string, maxIndex int, out sink) {
+	checkFileFramesView(lc, path, maxIndex, false, out)
+}
+
+// checkFileFramesView: tornHead=true is the view of a live WAL whose last writes are not flushed yet —
+// the HEAD file may then end anywhere (even inside a record); every rotated file must still be whole
+// (RotateFile flushes before it renames) and every file must START on a frame boundary.
+func checkFileFramesView(lc *logCase, path string, maxIndex int, tornHead bool, out sink) {
 	pos := 0
+	offs := lc.off
+	if len(offs) > 16 {
+		offs = nil // keep messages short for logs with many records
+	}
 	for i := 0; i <= maxIndex; i++ {
 		p := path
 		if i < maxIndex {
@@ -207,18 +218,24 @@ func checkFileFrames(lc *logCase, path string, maxIndex int, out sink) {
 			if o == pos {
 				lo = k
 			}
-			if o == pos+len(b) {
-				hi = k
+			if o <= pos+len(b) {
+				hi = k // last record boundary inside the file
 			}
 		}
-		if lo < 0 || hi < 0 {
+		whole := hi >= 0 && lc.off[hi] == pos+len(b)
+		if lo < 0 || hi < lo || (!whole && !(tornHead && i == maxIndex)) {
 			nmsg, ec := decodeCount(b)
 			out("file-starts-mid-frame", fmt.Sprintf("file #%d of %d holds bytes %d..%d of the log, not a whole number of records (record boundaries %v); read alone it gives %d messages then %s",
-				i, maxIndex+1, pos, pos+len(b), lc.off, nmsg, ec))
+				i, maxIndex+1, pos, pos+len(b), offs, nmsg, ec))
 			return
 		}
 		sub := &logCase{recs: lc.recs[lo:hi], W: b, off: shift(lc.off[lo:hi+1], -pos), name: lc.name, shape: lc.shape}
 		ci := corrInfo{class: "clean", rec: hi - lo, kStrict: hi - lo, clean: true}
+		if !whole {
+			ci = corrInfo{class: "truncation-in-payload", rec: hi - lo, kStrict: hi - lo, trunc: true}
+			sub.recs = lc.recs[lo:]
+			sub.off = shift(lc.off[lo:], -pos)
+		}
 		checkStream(sub, bytes.NewReader(b), len(b), &ci, func(o, what string) {
 			out("file-starts-mid-frame", fmt.Sprintf("file #%d read alone (%s): %s", i, o, what))
 		})
